@@ -332,6 +332,9 @@ ApplyTx(m, t) == IF t.ver = 1 THEN Apply1(m, t) ELSE Apply2(m, t)
 -----------------------------------------------------------------------------
 (* ------------------------- templates: proposals of transactions ------------------------- *)
 CONSTANTS PayAmts, Fees, Pay1, Sizes, FormRH, RevShifts, SFSplits,
+          WinStarts, WinLens,   \* formation menus: window start / proof height offsets from the child height, and window lengths
+          HistPost,   \* generation: record the committed state after every step in hist (FALSE keeps exhaustive enumerations small)
+          StopAfterReject,   \* generation aid (exhaustive enumeration): a behaviour ends with its first rejected block
           Focus      \* generation aid: TRUE = every block draws one template family (keeps random simulation from being
                      \* drowned by the many payment variants); FALSE = all enabled templates in every block
 
@@ -365,7 +368,7 @@ Form1Tx(m, id, P, dw, de, size) ==
      !.sco = IF m.sc[id].val - P > 0 THEN <<Out(m.sc[id].val - P, m.sc[id].addr)>> ELSE <<>>]
 T_Form1(m) == IF "form1" \notin Templates \/ 1 \notin Vers THEN {} ELSE
   {Form1Tx(m, q[1], q[2], q[3], q[4], q[5]) :
-     q \in {y \in SpendableSC(m) \X Pay1 \X {0, 1, 2} \X {1, 2} \X Sizes : y[2] <= m.sc[y[1]].val}}
+     q \in {y \in SpendableSC(m) \X Pay1 \X WinStarts \X WinLens \X Sizes : y[2] <= m.sc[y[1]].val}}
 Live1(m) == {cid \in DOMAIN m.c1 : cid \notin m.spends}
 Rev1(c, d, dw) == [c EXCEPT !.rn = @ + 1, !.ws = @ + dw, !.we = @ + dw,
                      !.vo = <<Out(c.vo[1].val - d, c.vo[1].addr), Out(c.vo[2].val + d, c.vo[2].addr)>>,
@@ -385,7 +388,7 @@ Form2Tx(m, id, rh, dp, de) ==
      !.sco = IF m.sc[id].val - Cost2(rh) > 0 THEN <<Out(m.sc[id].val - Cost2(rh), m.sc[id].addr)>> ELSE <<>>]
 T_Form2(m) == IF "form2" \notin Templates \/ 2 \notin Vers THEN {} ELSE
   {Form2Tx(m, q[1], q[2], q[3], q[4]) :
-     q \in {y \in SpendableSC(m) \X FormRH \X {0, 1, 2} \X {1, 2} : Cost2(y[2]) <= m.sc[y[1]].val}}
+     q \in {y \in SpendableSC(m) \X FormRH \X WinStarts \X WinLens : Cost2(y[2]) <= m.sc[y[1]].val}}
 Live2(m) == {cid \in DOMAIN m.c2 : cid \notin m.spends /\ cid \in DOMAIN c2}
 Rev2(c, d, dp) == [c EXCEPT !.rn = @ + 1, !.r = @ - d, !.h = @ + d, !.mh = IF @ > d THEN @ - d ELSE 0, !.ph = @ + dp, !.eh = @ + dp]
 T_Rev2(m) == IF "rev2" \notin Templates \/ 2 \notin Vers THEN {} ELSE
@@ -492,6 +495,7 @@ Init == /\ height = 0 /\ sc = GenesisSC /\ sf = GenesisSF /\ c1 = <<>> /\ c2 = <
         /\ spentBag = <<>> /\ gone = <<>> /\ ms = NULL /\ nrev = 0 /\ hist = <<>>
 
 Begin == /\ ms = NULL /\ height < MaxHeight
+         /\ (StopAfterReject => \A k \in DOMAIN hist : hist[k].verdict # "reject")
          /\ \E f \in (IF Focus THEN Templates \cup {"any"} ELSE {"any"}) : ms' = [FreshMS EXCEPT !.focus = f]
          /\ UNCHANGED <<committed, undo, nrev, hist>>
 
@@ -514,7 +518,8 @@ GoneRec(m, id) == IF id[1] = SFO THEN [k |-> "sf", val |-> m.sf[id].val, addr |-
                   ELSE IF id[1] = FC1 THEN [k |-> "c1", val |-> 0, addr |-> ""]
                   ELSE IF id[1] = FC2 THEN [k |-> "c2", val |-> 0, addr |-> ""]
                   ELSE [k |-> "sc", val |-> m.sc[id].val, addr |-> m.sc[id].addr]
-Post(s) == [h |-> s.height, pool |-> s.pool, fnd |-> s.fnd,
+Post(s) == IF ~HistPost THEN [none |-> TRUE] ELSE
+           [h |-> s.height, pool |-> s.pool, fnd |-> s.fnd,
             sc |-> {<<id, s.sc[id].val, s.sc[id].addr, s.sc[id].mat>> : id \in DOMAIN s.sc},
             sf |-> {<<id, s.sf[id].val, s.sf[id].addr, s.sf[id].cs>> : id \in DOMAIN s.sf},
             c1 |-> {<<id, s.c1[id]>> : id \in DOMAIN s.c1},
@@ -541,16 +546,18 @@ End ==
              /\ claimed' = claimed + ms.claimed
              /\ forfeited' = forfeited + ms.forfeit
              /\ spentBag' = [id \in DOMAIN spentBag \cup dead |-> (IF id \in DOMAIN spentBag THEN spentBag[id] ELSE 0) + (IF id \in dead THEN 1 ELSE 0)]
-             /\ gone' = gone ++ [id \in {x \in dead : x \notin ms.created} |-> GoneRec(ms, id)]
+             \* (including outputs created and spent inside this block: they enter the accumulator as spent leaves)
+             /\ gone' = gone ++ [id \in dead |-> GoneRec(ms, id)]
              /\ hist' = Append(hist, [op |-> "block", verdict |-> "accept", txs |-> ms.txs, exp |-> exp,
                                       post |-> Post([height |-> child, pool |-> ms.pool, fnd |-> ms.fnd, sc |-> sc', sf |-> sf', c1 |-> c1', c2 |-> c2'])])
   /\ ms' = NULL /\ UNCHANGED nrev
 
 Revert == /\ ms = NULL /\ undo # <<>> /\ nrev < MaxReverts
+          /\ (StopAfterReject => \A k \in DOMAIN hist : hist[k].verdict # "reject")
           /\ LET u == Head(undo) IN
                /\ height' = u.height /\ sc' = u.sc /\ sf' = u.sf /\ c1' = u.c1 /\ c2' = u.c2 /\ pool' = u.pool /\ fnd' = u.fnd
                /\ minted' = u.minted /\ claimed' = u.claimed /\ forfeited' = u.forfeited /\ spentBag' = u.spentBag /\ gone' = u.gone
-               /\ hist' = Append(hist, [op |-> "revert", post |-> Post(u)])
+               /\ hist' = Append(hist, [op |-> "revert", verdict |-> "done", post |-> Post(u)])
           /\ undo' = Tail(undo) /\ nrev' = nrev + 1 /\ UNCHANGED ms
 
 Next == Begin \/ Txn \/ BadTxn \/ End \/ Revert
